@@ -381,6 +381,7 @@ def king_ann():
         'forall|u: Point| #[trigger] king_target_upto(%s, u, move_generation_mode, %s, %s) ==> has_from(moves@, old(moves)@.len() as int, u)' % (P, i, j),
     ]
     return {
+        'fn_attr': '#[verifier::loop_isolation(false)]',   # a call hoisted out of the loops keeps its postcondition inside them (N9)
         'requires': ['wf(board.board)', 'on_board(row as int, col as int)', 'at(board.board, row as int, col as int) == Square::Full(piece)'] + MODE_REQ,
         'ensures': ['appended(old(moves)@, final(moves)@)',
             'forall|k: int| old(moves)@.len() <= k < final(moves)@.len() ==> king_target(board.board, piece.color, row as int, col as int, #[trigger] final(moves)@[k], move_generation_mode)',
